@@ -6,15 +6,17 @@
 # list of unique couples with sum of weights equal s. 
 # result is not "optimal" by any means, it is just the
 # first recursive solution encountered.
-def exactsum(l,s,i=0,r=[]):
+def exactsum(l,s,i=0,r=None):
+    if r is None: r = []
     n = len(l)
     if s==0: return True
     if s<0 or i==n: return False
-    if exactsum(l,s-l[i][1],i+1):
-        r.append(l[i]) #lgtm [py/modification-of-default-value]
+    if exactsum(l,s-l[i][1],i+1,r):
+        r.append(l[i])
         return True if i else r
     else:
-        return exactsum(l,s,i+1)
+        found = exactsum(l,s,i+1,r)
+        return (r if found else False) if i==0 else found
 
 # a simple version of dynamic programming method
 # to find a minimal-length list of couples from l
